@@ -102,6 +102,8 @@ func installHook() {
 	})
 }
 
+var largeWrites atomic.Int64
+
 func payload(writer, seq, bodyLen int, rnd *rand.Rand) []byte {
 	b := make([]byte, 10+bodyLen+4)
 	binary.BigEndian.PutUint16(b[0:], uint16(writer))
@@ -192,6 +194,11 @@ func runRound(seed int64, transport string, writers, writes int, delays bool) ro
 					n = 1024 - 14 // exactly one full frame
 				case 1:
 					n = 1025 + wr.Intn(2000) // two or three frames
+				case 2:
+					if s%8 == 3 { // now and then a large response: 10..70 frames, beyond 64 KiB
+						n = 10000 + wr.Intn(62000)
+						largeWrites.Add(1)
+					}
 				}
 				p := payload(w, s, n, wr)
 				smu.Lock()
@@ -419,6 +426,8 @@ func main() {
 	r.Count("writers_released_at_conn.write.written", int(atomic.LoadInt64(&hookReleases)))
 	r.Floor("delays taken at hook point conn.write.sealed", int(atomic.LoadInt64(&hookDelay)), rounds)
 	r.Floor("handover rounds released at hook point conn.write.written", int(atomic.LoadInt64(&hookReleases)), rounds/40)
+	r.Count("writes_of_10_to_70_frames", int(largeWrites.Load()))
+	r.Floor("writes_of_10_to_70_frames", int(largeWrites.Load()), 20)
 	r.Floor("keep_alive_messages_between_payloads", int(r.Counter("keep_alive_messages_between_payloads")), rounds)
 	r.Floor("rounds_with_overlapping_writes", int(r.Counter("rounds_with_overlapping_writes")), rounds/2)
 	r.Floor("overlapping_write_pairs", int(r.Counter("overlapping_write_pairs")), 2000)
